@@ -46,6 +46,7 @@ type RaftOpts struct {
 	PutDelay        time.Duration // > 0: every Put of the pinset store takes that long (slow state arrival)
 	GateStore       bool          // writes of the pinset store block until RaftPeer.Gate.Release()
 	NetSwitch       bool          // the host gets a connection gater the harness can close (RaftPeer.Net)
+	NoWait          bool          // do not wait for Ready() of a non-staging peer
 	NoAutoSnapshot  bool          // raft takes snapshots only on request (ForceSnapshot) and on shutdown
 	TweakCluster    func(cfg *ipfscluster.Config)
 	// NoCluster builds only host + raft.Consensus (C01 seam 3 child); the
@@ -308,7 +309,7 @@ func NewRaftPeer(o RaftOpts) (*RaftPeer, error) {
 		return fail(err)
 	}
 	r.Cluster = cl
-	if !o.Staging {
+	if !o.Staging && !o.NoWait {
 		w := o.WaitReady
 		if w == 0 {
 			w = 40 * time.Second
